@@ -229,7 +229,52 @@ fn process(f: &syn::ImplItemFn, file: &syn::File) -> R<Process> {
         }
     }
     let cx = Ctx { item, cur, consts: cs.0, helpers: helpers_of(file, Some(TY), &["prepare_request", "process_response", "compute_timeout", "request", "request_async"]) };
-    let stmts = &f.block.stmts;
+    // `let x = match S { P(b) => b, r => return E }; TAIL`  is read as  `match S { P(b) => { let x = b; TAIL }, r => E }`
+    let normalised: Vec<syn::Stmt> = {
+        let mut v: Vec<syn::Stmt> = f.block.stmts.clone();
+        let n = v.len();
+        if n >= 3 {
+            let rewritten: Option<syn::Expr> = (|| {
+                let (l, tail) = match (&v[n - 2], &v[n - 1]) {
+                    (syn::Stmt::Local(l), syn::Stmt::Expr(tail, None)) => (l, tail),
+                    _ => return None,
+                };
+                let (x, mutable, init) = plain_let(l)?;
+                if mutable {
+                    return None;
+                }
+                let m = match strip(init) {
+                    syn::Expr::Match(m) if m.arms.len() == 2 => m,
+                    _ => return None,
+                };
+                let (a0, a1) = (&m.arms[0], &m.arms[1]);
+                if a0.guard.is_some() || a1.guard.is_some() {
+                    return None;
+                }
+                // first arm passes its innermost binder on, second arm returns
+                let passed = ident_of(block_expr(&a0.body))?;
+                let ret = match strip(block_expr(&a1.body)) {
+                    syn::Expr::Return(r) => r.expr.as_deref()?.clone(),
+                    _ => return None,
+                };
+                let (scrut, p0, p1) = (&m.expr, &a0.pat, &a1.pat);
+                let xi = syn::Ident::new(&x, proc_macro2::Span::call_site());
+                let pi = syn::Ident::new(&passed, proc_macro2::Span::call_site());
+                let e: syn::Expr = if x == passed {
+                    syn::parse_quote!(match #scrut { #p0 => #tail, #p1 => #ret })
+                } else {
+                    syn::parse_quote!(match #scrut { #p0 => { let #xi = #pi; #tail }, #p1 => #ret })
+                };
+                Some(e)
+            })();
+            if let Some(e) = rewritten {
+                v.truncate(n - 2);
+                v.push(syn::Stmt::Expr(e, None));
+            }
+        }
+        v
+    };
+    let stmts = &normalised;
     let shape1 = "first statement `let H = match <res> { Ok(x) => x, Err(_) => { .. return <..>::<Variant>(<duration>); } };`";
     // S1
     let (h, m) = match stmts.first() {
